@@ -39,3 +39,6 @@ CONTRACTS = [
         families={"inner": dict(spec=INNER, id="s.n", inv="_id == k and k <= s.n")},
     ),
 ]
+# native runner (references written from the property text): replay, thorough cross-check, bounded stand-in on drift
+for _c in CONTRACTS:
+    _c.runner = ("flatrun.py", _c.name)
